@@ -144,6 +144,11 @@ C02_Lookups ==
      /\ SeqToSet(obs.lookup.longerx1) = PresentPfx \cap {"x1", "x2"}
      /\ SeqToSet(obs.lookup.longer16) = PresentPfx \cap {"x1", "x2"}
      /\ SeqToSet(obs.lookup.shortx2)  = PresentPfx \cap {"x1", "x2"}
+     (* a host address inside x2: the most specific prefix the table HOLDS A ROUTE for (a destination
+        that lingers without a route, e.g. after an API delete, must not hide the covering prefix) *)
+     /\ ("host" \in DOMAIN obs.lookup =>
+           SeqToSet(obs.lookup.host) = (IF "x2" \in PresentPfx THEN {"x2"}
+                                       ELSE IF "x1" \in PresentPfx THEN {"x1"} ELSE {}))
 
 (* C02: received / accepted counters agree with that content *)
 (* a removed neighbour is not listed at all (the harness then records -1), a configured one always is *)
